@@ -9,8 +9,9 @@ spec         : specs/Resolver.tla, section "C16": UpgradeOk (the target is satis
                same packages, no cycle through a build-time dependency, no slot-moved versions).
                Outside Robust the policy clauses are Unspecified (counted, not judged).
                Deterministic: two resolutions of identical inputs (fresh objects) give the same
-               answer and the same operations; thorough tier additionally repeats runs in
-               subprocesses with different PYTHONHASHSEED.
+               answer and the same operations; a further set of worlds is resolved once in this
+               process (after many other resolutions) and once in a fresh interpreter with another
+               PYTHONHASHSEED, in reversed order.
 MC           : Resolver_MC (shared with C15): RobustNeverFails / RobustPolicy - in the
                Robust domain no order of work of the reference resolver fails or misses the policy.
 spec -> code : exported bounded family;  code -> spec: seeded random worlds (robust style weighted).
@@ -43,24 +44,24 @@ def other_process_ops(worlds_kinds, hashseed):
     return json.loads(p.stdout)
 
 
-def cross_process_determinism(ck, n_worlds):
+def cross_process_determinism(ck, n_worlds, batch):
+    """identical inputs, different surroundings: resolved here (in a process that has already done
+    many other resolutions) and in a fresh interpreter with another hash seed, in reversed order"""
     r_ = rng(1616)
     pairs = []
     for n in range(n_worlds):
-        w = c15.gen_world(r_, ("robust", "friendly", "hostile")[n % 3])
+        w = c15.gen_world(r_, c15.STYLES[n % len(c15.STYLES)])
         for kind in c15.KINDS:
             pairs.append((w, kind))
-    a = other_process_ops(pairs, 1)
-    b = other_process_ops(pairs, 7)
-    batch = c15.Batch()
+    a = [c15.run_once(w, kind, record=False) for w, kind in pairs]
+    b = list(reversed(other_process_ops(list(reversed(pairs)), 7)))
     for (w, kind), o1, o2 in zip(pairs, a, b):
         tid = len(batch.cases)
         batch.events.append(dict(tid=tid, i=0, ev="resolve", kind=kind, pkgs=c15.world_event(w), targets=w["targets"],
                                  raised=o1["raised"], exc=o1["exc"], ok=o1["ok"], ops=o1["ops"],
                                  raised2=o2["raised"], exc2=o2["exc"], ok2=o2["ok"], ops2=o2["ops"]))
-        batch.cases.append(dict(world=w, kind=kind, o1=dict(o1, tb=o1["exc"])))
+        batch.cases.append(dict(world=w, kind=kind, o1=o1))
         ck.count()
-    c15.judge(ck, batch, "hashseed 1 vs 7", {"Deterministic"})
 
 
 def run(ck):
@@ -76,11 +77,10 @@ def run(ck):
     if ck.replay_case:
         return c15.replay(ck, want)
     c15.model_check(ck)
-    stats = c15.campaign(ck, want, plan_trace=False, sizes=ck.pick((80, 160, 100000), (3000, 4000, 4000)),
-                         styles=("robust", "friendly", "robust", "hostile"), seed=16)
+    stats = c15.campaign(ck, want, plan_trace=False, sizes=ck.pick((60, 120, 100000), (3000, 4000, 4000)),
+                         styles=("robust", "friendly", "robust", "hostile", "blocky"), seed=16,
+                         tail=lambda batch: cross_process_determinism(ck, ck.pick(30, 600), batch))
     ck.extra["runs"] = stats
     ck.extra["policy_clauses_judged"] = stats["judged"]
-    if not ck.quick:
-        cross_process_determinism(ck, 600)
     if stats["judged"] == 0 and not ck.violations and stats["crashed"] == 0:
         raise tlc.MachineryError("no policy clause was inside the judged domain")
